@@ -240,7 +240,7 @@ func c7relation(d, u *c7slot) string {
 
 func TestC07(t *testing.T) {
 	r, e := start(t, "C07",
-		"random block trees (functions at top level, if/else-if/else, for with header variable, range with header variables, switch cases; depth <= 4) with one definition site (:=, var, for-init variable, range variable, parameter, function) and one use site (read, write, redefinition by := or var, call) placed at any statement boundary; plus break/continue/return/func placed at every boundary, duplicate functions/parameters, undefined names; an enumeration of value-returning functions (3 result signatures x 3 prefixes x 13 last-statement shapes incl. empty / comment-only bodies x used/unused) that can fall off their end; import-boundary cases (globals, locals and functions of an imported file seen from the importer and the reverse). Oracle: lexical-scope model (visible from the definition to the end of its block and in nested blocks; function bodies see only globals defined before the function; no shadowing; functions usable after their top-level definition). Non-trivial = definition and use in different blocks; distinct by program text.",
+		"random block trees (functions at top level, if/else-if/else, for with header variable, range with header variables, switch cases; depth <= 4) with one definition site (:=, var, for-init variable, range variable, parameter, function) and one use site (read, write, redefinition by := or var, call) placed at any statement boundary; plus break/continue/return/func placed at every boundary, duplicate functions/parameters, undefined names; an enumeration of value-returning functions (3 result signatures x 3 prefixes x 13 last-statement shapes incl. empty / comment-only bodies x used/unused) that can fall off their end; import-boundary cases (globals, locals and functions of an imported file seen from the importer and the reverse); every case is checked twice: as the entry file and as the text of an imported file. Oracle: lexical-scope model (visible from the definition to the end of its block and in nested blocks; function bodies see only globals defined before the function; no shadowing; functions usable after their top-level definition). Non-trivial = definition and use in different blocks; distinct by program text.",
 		[]string{"shadowing an outer variable is treated as an error, as the property states (Go would allow it)", "a value-returning function must end with a return statement (if/else chains that both return are not asserted)", "accepted programs are not executed here (C01-C03 own the run-time semantics)"})
 	defer r.Flush()
 	_ = e
@@ -278,6 +278,10 @@ func TestC07(t *testing.T) {
 			r.Class("fixed:" + f.expect)
 			if kind, msg := checkVerdict(c); kind != "" {
 				r.Violate(rep.Sig{"fixed": f.note, "kind": kind}, f.note+": "+msg+"\n"+f.src, c)
+			} else if ci, ok := asImport(c); ok {
+				if kind, msg := checkVerdict(ci); kind != "" {
+					r.Violate(rep.Sig{"fixed": f.note, "kind": kind, "as-import": "yes"}, ci.Note+": "+msg+"\n"+f.src, ci)
+				}
 			}
 		}
 	}
@@ -357,6 +361,10 @@ func TestC07(t *testing.T) {
 						r.Class("end-of-function:" + last.expect)
 						if kind, msg := checkVerdict(c); kind != "" {
 							r.Violate(rep.Sig{"end-of-function": last.name, "pre": pre.name, "kind": kind}, note+": "+msg+"\n"+src, c)
+						} else if ci, ok := asImport(c); ok {
+							if kind, msg := checkVerdict(ci); kind != "" {
+								r.Violate(rep.Sig{"end-of-function": last.name, "pre": pre.name, "kind": kind, "as-import": "yes"}, ci.Note+": "+msg+"\n"+src, ci)
+							}
 						}
 					}
 				}
@@ -496,6 +504,15 @@ func TestC07(t *testing.T) {
 		if kind, msg := checkVerdict(c); kind != "" {
 			sig["kind"] = kind
 			r.FailCase(t, sig, note+": "+msg+"\n"+src, c)
+		}
+		// the same text as an imported file: names are stored under a prefix there, the scope rules are the same
+		if ci, ok := asImport(c); ok {
+			r.Class("as-imported-file")
+			if kind, msg := checkVerdict(ci); kind != "" {
+				sig["kind"] = kind
+				sig["as-import"] = "yes"
+				r.FailCase(t, sig, ci.Note+": "+msg+"\n"+src, ci)
+			}
 		}
 	})
 }
